@@ -1,0 +1,35 @@
+//go:build verif
+
+package pagerduty
+
+// Contracts for govc (contract-based deductive verification). Comment-only file.
+
+// C20: verdicts of the send: a transport failure is recoverable; with a response the status decides through
+// Retrier.Check - a refused response fails the delivery with the retrier's recoverable flag, an accepted one succeeds.
+//@ func (*Notifier).notifyV1
+//@   props C20
+//@   nosafe
+//@   abstract
+//@   after call notify.RedactURL assume (res0 != nil) == (arg0 != nil)
+//@   after call notify.NewErrorWithReason assume res0 != nil
+//@   after call fmt.Errorf assume res0 != nil
+//@   ensures [a-transport-failure-is-recoverable] called("notify.PostJSON") && ret1("notify.PostJSON") != nil ==> result0 && result1 != nil && !called("Retrier).Check")
+//@   ensures [a-response-is-judged-by-its-status] called("notify.PostJSON") && ret1("notify.PostJSON") == nil ==> called("Retrier).Check")
+//@   ensures [a-refused-response-fails-with-the-retrier_s-verdict] called("Retrier).Check") && ret1("Retrier).Check") != nil ==> result1 != nil && result0 == ret("Retrier).Check")
+//@   ensures [an-accepted-response-is-success] called("Retrier).Check") && ret1("Retrier).Check") == nil ==> result1 == nil
+//@   noeffect notify.PostJSON Retrier).Check notify.RedactURL notify.NewErrorWithReason notify.GetFailureReasonFromStatusCode notify.Drain
+
+// C20: verdicts of the send: a transport failure is recoverable; with a response the status decides through
+// Retrier.Check - a refused response fails the delivery with the retrier's recoverable flag, an accepted one succeeds.
+//@ func (*Notifier).notifyV2
+//@   props C20
+//@   nosafe
+//@   abstract
+//@   after call notify.RedactURL assume (res0 != nil) == (arg0 != nil)
+//@   after call notify.NewErrorWithReason assume res0 != nil
+//@   after call fmt.Errorf assume res0 != nil
+//@   ensures [a-transport-failure-is-recoverable] called("notify.PostJSON") && ret1("notify.PostJSON") != nil ==> result0 && result1 != nil && !called("Retrier).Check")
+//@   ensures [a-response-is-judged-by-its-status] called("notify.PostJSON") && ret1("notify.PostJSON") == nil ==> called("Retrier).Check")
+//@   ensures [a-refused-response-fails-with-the-retrier_s-verdict] called("Retrier).Check") && ret1("Retrier).Check") != nil ==> result1 != nil && result0 == ret("Retrier).Check")
+//@   ensures [an-accepted-response-is-success] called("Retrier).Check") && ret1("Retrier).Check") == nil ==> result1 == nil
+//@   noeffect notify.PostJSON Retrier).Check notify.RedactURL notify.NewErrorWithReason notify.GetFailureReasonFromStatusCode notify.Drain
